@@ -114,6 +114,33 @@ def gen_problem(rng, scalar=None, family=None, N=None, S=None, ctor=None, weight
             "meta": {"family": family, "N": N, "M": M, "P": P, "S": S, "weights": wkind, "range": [lo, hi]}}
 
 
+SCALABLE = ("exp2c", "gaussc")     # every parameter of these families is a length / position on the x axis
+
+
+def rescale_case(c, k=None):
+    """the same problem in other units: x and every nonlinear parameter (initial guess, updates, reference points) multiplied by 2^-k,
+    exactly. Model values are bit-identical (they depend on x / alpha only); the PARAMETERS become tiny in absolute terms — the whole
+    parameter range lies below machine epsilon — so anything that compares parameters with an absolute tolerance sees them all as equal.
+    Only for the families in SCALABLE."""
+    if c["meta"]["family"] not in SCALABLE:
+        return c
+    sc = c["scalar"]
+    k = k or (58 if sc == "f64" else 28)
+    f = 2.0 ** -k
+
+    def scl(h):
+        return hx(unhx(h) * f, sc)
+    c["model"]["x"] = [scl(h) for h in c["model"]["x"]]
+    c["model"]["init"] = [scl(h) for h in c["model"]["init"]]
+    for o in c["ops"]:
+        if o[0] in ("set", "ref"):
+            o[1] = [scl(h) for h in o[1]]
+    lo, hi = c["meta"]["range"]
+    c["meta"]["range"] = [lo * f, hi * f]
+    c["meta"]["xscale_log2"] = -k
+    return c
+
+
 def canon_log(log, parallel):
     """parallel Jacobian rounds call the derivatives in a schedule dependent order (and may skip
     calls after a failure): canonicalise each round (the harness numbers them) to index order, cut
